@@ -449,4 +449,15 @@ pub mod verif {
     super::extract_input_devices_from_proc_bus_input_devices(text, false)
       .into_iter().map(|d| (d.sysfs_path, d.name, d.is_keyboard)).collect()
   }
+  
+  // the same two extractors with the caller's verbose flag (the systemd unit runs with --verbose)
+  pub fn extract_keyboards_with(text: &str, verbose: bool) -> Vec<(String, String)> {
+    super::extract_keyboards_from_proc_bus_input_devices(text, verbose)
+      .into_iter().map(|d| (d.sysfs_path, d.name)).collect()
+  }
+  
+  pub fn extract_input_devices_with(text: &str, verbose: bool) -> Vec<(String, String, bool)> {
+    super::extract_input_devices_from_proc_bus_input_devices(text, verbose)
+      .into_iter().map(|d| (d.sysfs_path, d.name, d.is_keyboard)).collect()
+  }
 }
